@@ -78,7 +78,13 @@ func H_C17_pure_encode() {
 	spec.Kinds = "mls"
 	m := vNondetMap(spec)
 	k := vNondetString(1, 1, "ab")
-	ms, _ := NewMapXmlSeq([]byte("<r " + k + "=\"1\"><!--c--><" + k + ">x</" + k + "><b/></r>"))
+	ms, _ := NewMapXmlSeq([]byte("<r " + k + "=\"1\" z=\"2\"><!--c--><" + k + ">x</" + k + "><b/></r>"))
+	if vChoose(2) == 1 {
+		// a MapSeq that has been stored as JSON: its sequence numbers are float64
+		j, _ := Map(ms).Json()
+		mj, _ := NewMapJson(j)
+		ms = MapSeq(mj)
+	}
 	mark := vMark(m, map[string]interface{}(ms))
 	switch vChoose(6) {
 	case 0:
@@ -143,7 +149,12 @@ func H_C17_footprint() {
 	m := vNondetMap(spec)
 	k := vNondetString(1, 1, "ab")
 	ms, _ := NewMapXmlSeq([]byte("<r " + k + "=\"1\"><!--c--><" + k + ">x</" + k + "><b/></r>"))
-	op := vChoose(12)
+	op := vChoose(13)
+	wl := make([]interface{}, 33+vChoose(2))
+	for i := range wl {
+		wl[i] = "v"
+	}
+	wide := Map{"a": wl}
 	// options are fixed before the concurrent phase; both escaping modes are covered
 	switch vChoose(3) {
 	case 1:
@@ -174,6 +185,10 @@ func H_C17_footprint() {
 		case 7:
 			_ = Map(m).LeafNodes()
 			_, _ = Map(m).Copy()
+		case 12: // more results than the initial size of the result buffer
+			_, _ = wide.ValuesForPath("a")
+			_, _ = wide.ValuesForKey("a")
+			_, _ = wide.ValuesForPath("*")
 		case 9: // reader forms over a reader that is not an io.ByteReader
 			_, _ = NewMapXmlReader(vSlow([]byte("<r><" + k + ">x</" + k + "></r>")))
 		case 10:
